@@ -38,6 +38,7 @@ STRUCT_CALLS = {"remove_child", "add_child", "insert_child", "new_child", "inser
                 "prune_taxa_with_labels", "prune_nodes", "prune_leaves_without_taxa", "filter_leaf_nodes", "retain_taxa", "retain_taxa_with_labels",
                 "resolve_polytomies", "collapse_unweighted_edges", "truncate_from_root", "randomly_reorient", "_convert_node_to_root_polytomy"}
 ORDER_ONLY = {"ladderize", "reorder", "randomly_rotate"}
+INCREMENTAL_ONLY = {"suppress_unifurcations", "delete_outdegree_one_nodes"}
 ENCODERS = {"encode_bipartitions", "update_bipartitions", "encode_splits", "update_splits"}
 FLAG = "update_bipartitions"
 
@@ -466,7 +467,9 @@ def _honours_flag(index, rep, fi):
             if call_name(c) in ENCODERS and isinstance(c.func, ast.Attribute):
                 return True
             kw = get_kwarg(c, FLAG)
-            if kw is not None and norm(kw) == FLAG:
+            # forwarding the flag discharges the obligation only when the callee re-encodes the whole tree; suppress_unifurcations
+            # merely drops the bipartitions of the nodes IT removes (incremental) and leaves every other leafset as it was
+            if kw is not None and norm(kw) == FLAG and call_name(c) not in INCREMENTAL_ONLY:
                 return True
         return False
     truthy = lambda s, l, d: not (s.kind == "test" and norm(s.ast) == FLAG and l == "f")
